@@ -63,3 +63,33 @@ def emap_items(m):
 
 def ep(ctx, lm):
     return ctx.memo(("EP", lm), lambda: EP(ctx, lm))
+
+
+def leaves(x, path=()):
+    """(path tuple, leaf term, presence gates) for every non-record leaf of a nested record /
+    finite-map term.  Map entries add their key name to the path and their presence to gates."""
+    out = []
+
+    def walk(t, p, gates):
+        if t.op == "adt" and len(t.a) > 2:
+            names = tm.field_names(t.a[0], t.a[1]) or [str(i) for i in range(len(t.a) - 2)]
+            for n, f in zip(names, t.a[2:]):
+                walk(f, p + (n,), gates)
+        elif t.op == "emap":
+            n = (len(t.a) - 1) // 2
+            for i in range(n):
+                pres, v = t.a[1 + 2 * i], t.a[2 + 2 * i]
+                if pres is tm.FALSE:
+                    continue
+                walk(v, p + ("[%s]" % tm.variant_name(t.a[0], i),), gates + (pres,))
+        elif t.op == "tuple" and len(t.a) > 0:
+            for i, f in enumerate(t.a):
+                walk(f, p + (str(i),), gates)
+        else:
+            out.append((p, t, gates))
+    walk(x, path, ())
+    return out
+
+
+def pstr(p):
+    return ".".join(p).replace(".[", "[")
